@@ -805,7 +805,8 @@ class CSSSerializer:
                     (self._level + int(self.prefs.indentClosingBrace))
                     * self.prefs.indent,
                 ),
-                self._selectorlevel,
+                # the level is kept from one rule to the next: only while switched on
+                self._selectorlevel if self.prefs.indentSpecificities else 0,
             )
 
     def do_css_SelectorList(self, selectorlist):
